@@ -74,6 +74,13 @@ def drive(tier):
                      b"\x03\x00\x00\x01\xb1\x75\x51", sigish + pkpush + b"\xac"):
             cases.append((b"", spk_, fl))
             cases.append((b"\x51", spk_, fl))
+    # every named flag with non-empty signatures that are not well-formed DER (short, lengths pointing past the end, lone hash type)
+    badsigs = [b"\x01", b"\x30", b"\x30\x01", b"\x30\x06\x02", b"\x30\x06\x02\x01\x01", b"\x30\x06\x02\x7f\x01\x02\x01\x01\x01", b"\x30\x06\x02\x01\x01\x02\x7f\x01\x01",
+               b"\x30\x06\x02\x01\x01\x02\x01", b"\x30\x45" + bytes(10), b"\xff" * 9, b"\x30\x06\x02\x01\x01\x02\x00\x01", bytes(73)]
+    for fl in (("LOW_S",), ("DERSIG",), ("STRICTENC",), ("LOW_S", "DERSIG", "STRICTENC", "NULLDUMMY"), tuple(allflags)):
+        for bs in badsigs:
+            cases.append((bytes(CScript([bs])), pkpush + b"\xac", fl))
+            cases.append((bytes(CScript([0, bs])), b"\x51" + pkpush + b"\x51\xae", fl))
     for n in (1001, 1002, 1100, 1200, 1500):
         for tail in (b"\x4c", b"\x4d\x05", b"\x6a", b"\xff", b"\x05\x01", b"\x75" * 3 + b"\x6a"):
             cases.append((b"\x00" * n + tail, b"\x51", ()))
